@@ -213,6 +213,11 @@ class WritersHarness(Harness):
             return s_
           return re.sub(r"⟦\d+\|[^⟧]*⟧", lambda m: "⟦" + ex.holes[m.group(0)].z.sexpr() + "⟧", s_)
         ex.prove(exc2 is None and norm(out) == norm(out2), "C14:repeatable", {"op": fmt + "-writer", "tags": tags})
+        if fmt == "vtt" and out:
+          # a result that depends on earlier calls shows as cue classes whose rule was emitted by some previous call only
+          used = set(c for m_ in re.finditer(r"<c((?:\.[^ >.]+)+)>", out) for c in m_.group(1)[1:].split("."))
+          declared = set(re.findall(r"::cue\(\.([^)]+)\)", out))
+          ex.prove(used <= declared, "C14:output-independent-of-earlier-calls", {"op": "vtt-writer", "_undeclared": sorted(used - declared), "tags": tags})
     if exc:
       det = {"site": exc[1], "exc": type(exc[0]).__name__, "tags": tags}
       ex.fail("C18:writer-raises", det)
